@@ -224,6 +224,14 @@ def _child_learn(unit: dict) -> dict:
         rec["status"] = "unsupported"
         rec["why"] = str(e)
         return rec
+    sub_k = gen_defs.split_wid(unit.get("wid") or "")[1]
+    if sub_k is not None and len(src2) > 1:
+        # the workload *is* a fixed sub-sample of the executions: the same
+        # job subset under every schedule (partial evidence)
+        rs = random.Random(core.grid("subset", unit["wid"]))
+        k = rs.randint(max(1, len(src2) // 3), len(src2) - 1)
+        src2 = [src2[i] for i in sorted(rs.sample(range(len(src2)), k))]
+        kin = 2
     src_jobs = list(src2)
     if kin > 2:
         have = {puml_sem.canon(j) for j in src_jobs}
@@ -255,9 +263,8 @@ def _child_learn(unit: dict) -> dict:
     pv = build_delivery(src_jobs, present)
     delivered_idx = sorted(set(present["order"]))
     rec["n_delivered"] = len(pv)
-    rec["complete"] = set(range(len(src2))) <= set(delivered_idx) and all(
-        i < len(src2) for i in delivered_idx
-    )
+    rec["complete"] = sub_k is None and set(range(len(src2))) <= set(
+        delivered_idx) and all(i < len(src2) for i in delivered_idx)
     names_in = sorted({e["eventType"] for job in pv for e in job})
     rec["names_in"] = names_in
     rec["hash_sig"] = hash_order_signature(names_in, unit["uuid_seed"])
